@@ -1,5 +1,6 @@
 (* C06 — Everything below the offset returned by Sync survives losing unsynced data (the log-file level). *)
 From KV Require Import Base Model Codec CodecProofs RecoverProofs Durable DurableProofs RecoverCrash RecoverCrashProofs.
+From KV Require Import History CrashDir DurableDelete DurableDeleteProofs.
 
 (* power loss keeps some prefix of every file (at least the fsynced length).  For a clean log cut at ANY byte
    n at or after its header: Recover keeps exactly the records that lie entirely below the cut - a prefix of
@@ -121,3 +122,49 @@ Theorem C06_migrate_keeps_live_files_durable :
   migrate_prog crc H p base mv iv b = Ok prog -> live_durable (mkS true r true t) prog.
 Proof. exact migrate_prog_live_files_durable. Qed.
 Print Assumptions C06_migrate_keeps_live_files_durable.
+
+(* ---------- the fsync protocol of Delete (DurableDelete.v): the complete program of a Delete - writer.Sync when the
+   target is the writing segment, Segment.Rewrite with its two fsyncs, writer.Sync again, then the swap of
+   CrashDir.delete_prog - on the file table.  After EVERY step, every <base>.log / <base>.index file other than those of
+   the writing segment (durable or not as they were before the call) and of a writing segment the Delete creates (two
+   files holding only a header) is entirely on stable storage: a power loss during a Delete cuts nothing from them.
+   The proof uses that the rewritten files are fsynced before they take a segment's name. *)
+Theorem C06_delete_steps_keep_durable :
+  forall st offs t k,
+  Jl (exempt st) t -> Jl (exempt st) (x_run t (firstn k (delete_full st offs))).
+Proof. exact delete_steps_keep_durable. Qed.
+Print Assumptions C06_delete_steps_keep_durable.
+
+(* the premise is what Publish / Sync / Close maintain (C06_sealed_segments_stay_durable) *)
+Theorem C06_delete_keeps_sealed_durable :
+  forall st offs t k,
+  sealed_durable (head_base st) t -> Jl (exempt st) (x_run t (firstn k (delete_full st offs))).
+Proof. exact delete_keeps_sealed_durable. Qed.
+Print Assumptions C06_delete_keeps_sealed_durable.
+
+(* and when the Delete is over, whatever is left of its temporary files is durable as well *)
+Theorem C06_delete_end_durable :
+  forall st offs t,
+  Jl (exempt st) t -> delete_full st offs <> [] ->
+  Jl (exempt st) (x_run t (delete_full st offs)) /\ Jt (x_run t (delete_full st offs)).
+Proof. exact delete_end_durable. Qed.
+Print Assumptions C06_delete_end_durable.
+
+(* non-vacuity: deleting the newest of three messages of the writing segment - syncs, rewrite of the two survivors,
+   a new writing segment at offset 3, the in-place swap; the table before it satisfies the premise *)
+Definition c06_hash (b : bytes) : Z := 0.
+Definition c06_cfg : cfg := mkCfg false false false false 1048576 false false V2 false false.
+Definition c06_state := fst (hrun c06_hash init_state
+  [HOpen c06_cfg; HPub [mkMsg 0 5 [97%N] [1%N]; mkMsg 0 6 [98%N] [2%N; 3%N]; mkMsg 0 7 [99%N] [4%N]]]).
+Example C06_delete_example :
+  delete_full c06_state [2] =
+    [XD (DFsync (FLog 0)); XD (DFsync (FIdx 0));
+     XD (DCreate FTLog 8); XD (DWrite FTLog 38); XD (DWrite FTLog 39); XD (DFsync FTLog);
+     XD (DCreate FTIdx 8); XD (DWrite FTIdx 16); XD (DWrite FTIdx 16); XD (DFsync FTIdx);
+     XD (DFsync (FLog 0)); XD (DFsync (FIdx 0));
+     XD (DCreate (FLog 3) 8); XD (DCreate (FIdx 3) 8);
+     XRemove (FIdx 0); XRename FTLog (FLog 0); XRename FTIdx (FIdx 0)] /\
+  Jl (exempt c06_state) [mkF (FLog 0) 123 (Some 8); mkF (FIdx 0) 56 (Some 8)].
+Proof.
+  split; [vm_compute; reflexivity|]. intros x [<-|[<-|[]]] _ Hn; exfalso; apply Hn; vm_compute; auto.
+Qed.
